@@ -6,7 +6,8 @@ from . import common
 
 LEVEL = "exploration"
 RULE = ("seeded random logical datasets (1-3 keys x value dtype x mask kind x 8 reductions, hostile layouts and null "
-        "placements) poured into numpy/pandas containers; every GroupBy result is compared label by label with a "
+        "placements) poured into numpy/pandas containers, a quarter of the single-key cases on the chunk-wise, pre-chunked "
+        "Arrow or multi-thread route (scaled thresholds); every GroupBy result is compared label by label with a "
         "pure-Python reference model. distinct = distinct case digests; non-trivial = at least 2 rows with a non-null "
         "key and at least one selected row")
 ASSUMPTIONS = [
@@ -34,7 +35,7 @@ def plan(tier):
 
 
 def required_counters(tier):
-    return ["allnull_group", "emptied_group", "unsorted_first_appearance", "multi_key"]
+    return ["allnull_group", "emptied_group", "unsorted_first_appearance", "multi_key", "observed_chunked_keys", "observed_multi_thread"]
 
 
 def gen_case(rng, dtypes):
@@ -55,6 +56,17 @@ def gen_case(rng, dtypes):
     if np.dtype(dtype).kind in "iu" and op in ("sum", "mean"):
         if not common.int_sum_in_range(lk, common.logical_vals(val), gen.mask_selection(mask, n), dtype):
             case["val"] = gen.gen_vals(rng, n, dtype, magnitude="small")
+    # the definition must hold on every route: a quarter of the single-key cases take the chunk-wise / multi-thread /
+    # pre-chunked Arrow routes (scaled thresholds), where masks and observed-label filters are resolved per chunk
+    r = rng.random()
+    if nkeys == 1 and keys[0]["kind"] != "cat" and n >= 4:
+        if r < 0.12:
+            case["strategy"] = {"chunk_threshold": int(gen.pick(rng, [2, 4])), "key_chunks": int(rng.integers(2, 6))}
+        elif r < 0.2 and keys[0]["kind"] != "bool":
+            case["kc"] = ["pa_chunked"]
+            case["ksplits"] = gen.random_splits(rng, n, 5) or [1]
+    if "strategy" not in case and r > 0.9:
+        case["strategy"] = {"rows_per_thread": max(1, n // int(rng.integers(2, 5)))}
     return case
 
 
@@ -90,6 +102,17 @@ def nontrivial(case):
 
 
 def check(case, ctx):
+    st = case.get("strategy")
+    if not st:
+        return _check(case, ctx)
+    lib.set_strategy(**st)
+    try:
+        return _check(case, ctx)
+    finally:
+        lib.reset_strategy()
+
+
+def _check(case, ctx):
     GroupBy = common.gb_class()
     fails = []
     n = case["n"]
@@ -101,6 +124,10 @@ def check(case, ctx):
     gb = lib.call(GroupBy, keys, sort=case.get("sort", True))
     if lib.raised(gb):
         return [{"monitor": "c01.raised", "sig": "construct", "detail": f"GroupBy(keys) raised {gb!r}"}]
+    if getattr(gb, "key_is_chunked", False):
+        ctx.count("observed_chunked_keys")
+    if int(getattr(gb, "_max_threads_for_numba", 1)) > 1:
+        ctx.count("observed_multi_thread")
     if op == "size":
         res = lib.call(gb.size, mask=mask)
         valspec = None
